@@ -38,6 +38,8 @@ def jobs(tier):
     out.append(("flat2.P65536", "job", dict(shape="flat2", P=65536, K=2, order="reversed")))
     out.append(("nested3.P16384", "job", dict(shape="nested3", P=16384, K=2, order="reversed")))
     out.append(("order2.P32768", "job", dict(shape="order2", P=32768, K=2, order="reversed")))
+    for shp in cr.scheme_shapes(["flat2", "nested3"], tier):
+        out.append(("%s.P16384" % shp, "job", dict(shape=shp, P=16384, K=1 if shp.startswith("nested3") else 2, order="reversed")))
     out.append(("seq.flat2.P16384-then-P65536", "job_seq", dict(P1=16384, P2=65536)))
     out.append(("seq.flat2.P32768-then-P16384", "job_seq", dict(P1=32768, P2=16384)))
     if not q:
